@@ -169,7 +169,7 @@ def check_case(case, fails, stats):
     ev = D.Evaluator()
 
     def fail(kind, what, t=None):
-        fails.append({"key": "X03|replay|%s|%s" % (_cls(case, t), kind), "what": "ku %s: %s" % (" ".join(argv), what),
+        fails.append({"key": "X03|replay|%s|%s" % (_cls(case, t), kind), "what": "ku %s: %s" % (" ".join(argv), what), "cid": case.get("cid"),
                       "argv": argv, "stdout": ran.out[:3000], "stderr": ran.err[:500], "exc": ran.exc})
 
     if case["st"] == "cantparse":
@@ -227,17 +227,66 @@ def check_case(case, fails, stats):
                 fail("refeed:%s|%s" % (rf["row"], bad[0]), "the printed %s %r fed back (ku -j -n %s): %s" % (rf["row"], text2, t["tpl"]["net"], bad[1]), t)
 
 
+def check_pair(c1, c2, fails, stats):
+    """two enumerated items with the same options in ONE invocation: the items are independent - what is printed is what
+    each prints alone, one after the other (an option must not wear off, a value must not leak from one item to the next)"""
+    items = [nets.text_of(c1["t"]), nets.text_of(c2["t"])]
+    argv = X.argv_of(c1, items[0]) + [items[1]]
+    ran = X.run_ku(argv)
+    stats["runs"] += 1
+    tabs = [(t, items[0]) for t in c1["tables"]] + [(t, items[1]) for t in c2["tables"]]
+
+    def fail(kind, what):
+        fails.append({"key": "X03|replay|several-items|%s+%s|%s" % (_cls(c1), _cls(c2), kind), "what": "ku %s: %s" % (" ".join(argv), what),
+                      "argv": argv, "stdout": ran.out[:3000], "stderr": ran.err[:500], "exc": ran.exc})
+    if ran.exc or ran.err:
+        return fail("raises:%s" % (ran.exc or "stderr"), "raises %s / writes %r to stderr" % (ran.exc, ran.err[:200]))
+    chunks = X.split_outputs(ran.out, [t["mode"] for t, it in tabs])
+    if chunks is None:
+        return fail("shape", "stdout does not consist of the %d printouts of the two items" % len(tabs))
+    ev = D.Evaluator()
+    for (t, it), lines in zip(tabs, chunks):
+        bad = compare_chunk(t["mode"], lines, expected_rows(t["tpl"], t["node"], it, ev), t["rows"])
+        stats["tables"] += 1
+        if bad:
+            return fail(("item2:" if it is items[1] else "item1:") + bad[0], bad[1])
+
+
 def _chunk(cases):
     fails = []
     stats = {"runs": 0, "tables": 0, "refeeds": 0, "classes": set()}
     try:
         for c in cases:
-            if c["st"] != "open":
+            if isinstance(c, tuple):
+                check_pair(c[0], c[1], fails, stats)
+            elif c["st"] != "open":
                 check_case(c, fails, stats)
     except MachineryError as e:
         return ("machinery", str(e))
     stats["classes"] = sorted(stats["classes"])
     return ("ok", fails, stats)
+
+
+def make_pairs(cases, rnd, limit):
+    """pairs of enumerated cases that share every option (so that they can be one command line)"""
+    groups = {}
+    for c in cases:
+        if c["st"] == "ok" and c["tables"] and not any(t["refused"] for t in c["tables"]) and c["form"] != "E_seed":
+            sig = json.dumps([c["nopt"], c["ov"], c["sub"], c["opts"]], sort_keys=True)
+            groups.setdefault(sig, []).append(c)
+    pairs = []
+    for sig in sorted(groups):
+        g = groups[sig]
+        rnd.shuffle(g)
+        pairs += [(g[i], g[i + 1]) for i in range(0, len(g) - 1, 2)]
+    rnd.shuffle(pairs)
+    # every option signature at least once, then up to the limit
+    seen, first, rest = set(), [], []
+    for p in pairs:
+        sig = json.dumps([p[0]["nopt"] != "", p[0]["ov"] != "", bool(p[0]["sub"]), p[0]["opts"]], sort_keys=True)
+        (rest if sig in seen else first).append(p)
+        seen.add(sig)
+    return (first + rest)[:limit]
 
 
 # ---------------------------------------------------------------- stages
@@ -249,7 +298,7 @@ def stage_model(ctx, env, q):
     if not cases:
         raise MachineryError("X03_MC_KuCases printed no case")
     # teeth of the model: a deliberately wrong operator must break the lemma that speaks about it
-    for cfg, inv in (("badwif", "Concrete"), ("badpub", "Tables"), ("badsec", "Concrete")):
+    for cfg, inv in (("badwif", "Concrete"), ("badpub", "Tables"), ("badsec", "Concrete"))[:2 if q else 3]:
         rb = ctx.tlc("X03_MC_KuCases", "X03_MC_KuCases_" + cfg, workers=2, env=env, expect_ok=False, count=False, keep_records=False, timeout=600)
         ctx.selftest("model_%s_violates_%s" % (cfg, inv), (not rb.ok) and rb.violated == inv)
     need = {}
@@ -280,21 +329,16 @@ def stage_model(ctx, env, q):
     return cases
 
 
-def stage_replay(ctx, cases):
+def _run_chunks(ctx, work):
     import multiprocessing as mp
-    rnd = random.Random(ctx.seed * 31 + 3)
-    cases = list(cases)
-    rnd.shuffle(cases)          # E_seed cases (slow) spread over the workers; order of execution is immaterial
-    n_open = sum(1 for c in cases if c["st"] == "open")
-    ctx.extra["cases_left_open_by_the_rules"] = n_open
     pool = mp.get_context("fork").Pool(NPROC)
     try:
-        res = pool.map(_chunk, split(cases, NPROC * 6), chunksize=1)
+        res = pool.map(_chunk, split(work, NPROC * 6), chunksize=1)
     finally:
         pool.close()
         pool.join()
     tot = {"runs": 0, "tables": 0, "refeeds": 0}
-    nf = 0
+    allfails = []
     for r in res:
         if r[0] == "machinery":
             raise MachineryError(r[1])
@@ -303,17 +347,36 @@ def stage_replay(ctx, cases):
             tot[k] += st[k]
         for c in st["classes"]:
             ctx.case(tuple(c), 0)
-        for f in fails:
-            nf += 1
-            ctx.fail(f["key"], f["what"], f)
+        allfails += fails
     ctx.case(None, tot["runs"])
-    ctx.replayed += len(cases) - n_open
-    ctx.action("replay.cases", len(cases) - n_open)
-    ctx.action("replay.tables", tot["tables"])
-    ctx.action("replay.refeeds", tot["refeeds"])
-    ctx.log("replay: %d cases (%d left open), %d ku runs, %d tables, %d fields fed back, %d disagreements (incl. known)" % (
-        len(cases), n_open, tot["runs"], tot["tables"], tot["refeeds"], nf))
+    return tot, allfails
 
+
+def stage_replay(ctx, cases):
+    rnd = random.Random(ctx.seed * 31 + 3)
+    cases = list(cases)
+    for i, c in enumerate(cases):
+        c["cid"] = i
+    rnd.shuffle(cases)          # E_seed cases (slow) spread over the workers; order of execution is immaterial
+    n_open = sum(1 for c in cases if c["st"] == "open")
+    ctx.extra["cases_left_open_by_the_rules"] = n_open
+    tot, fails = _run_chunks(ctx, cases)
+    for f in fails:
+        ctx.fail(f["key"], f["what"], f)
+    # two items in one invocation, from the cases that print what they must on their own
+    failed = {f["cid"] for f in fails}
+    pairs = make_pairs([c for c in cases if c["cid"] not in failed], rnd, 700 if ctx.quick else 5000)
+    ctx.extra["two_item_invocations"] = len(pairs)
+    tot2, fails2 = _run_chunks(ctx, pairs)
+    for f in fails2:
+        ctx.fail(f["key"], f["what"], f)
+    ctx.replayed += len(cases) - n_open + len(pairs)
+    ctx.action("replay.cases", len(cases) - n_open)
+    ctx.action("replay.two_items", len(pairs))
+    ctx.action("replay.tables", tot["tables"] + tot2["tables"])
+    ctx.action("replay.refeeds", tot["refeeds"])
+    ctx.log("replay: %d cases (%d left open) + %d invocations of two items, %d ku runs, %d tables, %d fields fed back, %d disagreements (incl. known)" % (
+        len(cases), n_open, len(pairs), tot["runs"] + tot2["runs"], tot["tables"] + tot2["tables"], tot["refeeds"], len(fails) + len(fails2)))
 
 
 # ---------------------------------------------------------------- helpers of the network object (network.output_for_*)
@@ -336,7 +399,9 @@ def stage_helpers(ctx, tbl, pool):
                 groups = ("secret",) if prv else ("public", "address")
                 exp = [(k, v, lab) for k, lab, lg, v in want if _GROUP_OF.get(k) in groups or (lg and not prv)]
                 f = getattr(N, fname, None)
-                tag, got = nets.call(lambda: [tuple(r) for r in f(arg)]) if f else ("exc", "missing")
+                if f is None:           # (an optional field of the network object)
+                    continue
+                tag, got = nets.call(lambda: [tuple(r) for r in f(arg)])
                 n += 1
                 ok = tag == "ok" and len(got) == len(exp) and all(
                     g[0] == e[0] and g[1] == e[1] and (g[2] if g[2] is not None else g[0].replace("_", " ")) == e[2] for g, e in zip(got, exp))
@@ -472,7 +537,12 @@ def _record_one(tap, case, forms, items):
         fx.of_printed(obs)
     ev = dict(case, items=[{"s": it, "t": t} for it, t in zip(items, structs)], obs=obs if obs is not None else [],
               unreadable=obs is None, raised=bool(ran.exc or ran.err), facts=fx.F)
-    return {"ev": [ev], "argv": argv, "forms": forms, "exc": ran.exc, "err": ran.err[:200], "out": ran.out[:2000], "parts": []}
+    # derivations happened but no HMAC-SHA512 went through the stdlib entry points (names bound before the recording,
+    # hand-written HMAC): the run cannot be judged here (the replay direction evaluates derivations without the tap)
+    hd = ("xprv", "xpub", "yprv", "ypub", "zprv", "zpub")
+    unobserved = not tap.calls and bool(obs) and any(f in ("P", "H") or (f in hd and case["sub"]) for f in forms)
+    return {"ev": [ev], "argv": argv, "forms": forms, "exc": ran.exc, "err": ran.err[:200], "out": ran.out[:2000], "parts": [],
+            "unobserved": unobserved}
 
 
 def record_traces(seed, count, tbl):
@@ -540,8 +610,10 @@ def _trace_key(t):
 
 
 def stage_traces(ctx, env, tbl, q):
-    n = 300 if q else 3000
+    n = 240 if q else 3000
     traces = record_traces(ctx.seed, n, tbl)
+    ctx.extra["trace_runs_with_unobserved_hmac"] = sum(1 for t in traces if t["unobserved"])
+    traces = [t for t in traces if not t["unobserved"]]
     ctx.case(None, len(traces))
     nrej = nopen = 0
     accepted = []
@@ -564,7 +636,11 @@ def stage_traces(ctx, env, tbl, q):
         nrej += 1
         mine = list(range(pi, pi + len(t["parts"])))
         pi += len(t["parts"])
-        culprits = [parts[j] for j in mine if j not in pacc] or [t]
+        culprits = [parts[j] for j in mine if j not in pacc and not parts[j]["unobserved"]]
+        if not culprits:
+            if any(parts[j]["unobserved"] for j in mine):
+                continue        # an item whose derivations could not be observed: the run cannot be attributed
+            culprits = [t]
         for c in culprits:
             ctx.fail(_trace_key(c), "recorded run is not a run of the pipeline of X03_KuTable: ku %s" % " ".join(c["argv"]),
                      {"argv": c["argv"], "stdout": c["out"], "stderr": c["err"], "exc": c["exc"]})
@@ -578,7 +654,7 @@ def stage_traces(ctx, env, tbl, q):
 
 
 # ---------------------------------------------------------------- ground truth: the repository's own ku test files
-def truth_events(tbl):
+def truth_events(tbl, few=False):
     """the command / expected-output pairs of REPO/tests/cmds/test_cases/ku as canned observations (pycoin is run only to
     observe which HMAC-SHA512 values the facts table needs; the OUTPUT judged is the file's)"""
     import shlex
@@ -589,6 +665,8 @@ def truth_events(tbl):
         for fn in sorted(os.listdir(d)):
             if not fn.endswith(".txt"):
                 continue
+            if few and fn.startswith("bip32_subpaths_") and fn[15:-4] not in ("btc", "ltc", "doge", "xtn", "tdash"):
+                continue        # (quick tier: 22 files of the same shape, five of them)
             lines = open(os.path.join(d, fn)).read().split("\n")
             while lines and lines[0].startswith("#"):
                 lines.pop(0)
@@ -610,6 +688,8 @@ def truth_events(tbl):
                 t = nets.structure_of(it)
                 items.append({"s": it, "t": t})
                 roots += fx.of_structure(t)
+            if not tap.calls and any(it["s"][:2] in ("P:", "H:") or (ev["sub"] and it["t"]["f"] == "b58c" and len(it["t"]["d"]) == 78) for it in items):
+                continue        # HMAC not observable on this tree: the file cannot be judged (see _record_one)
             try:
                 fx.hmac_calls(list(tap.calls), roots)
             except ValueError:
@@ -619,9 +699,9 @@ def truth_events(tbl):
     return out
 
 
-def stage_truth(ctx, env, tbl):
-    evs = truth_events(tbl)
-    if len(evs) < 30:
+def stage_truth(ctx, env, tbl, q):
+    evs = truth_events(tbl, few=q)
+    if len(evs) < 15:
         raise MachineryError("only %d of the repository's ku test files could be read" % len(evs))
     acc, opn = validate_traces(ctx, evs, env)
     bad = [evs[i]["file"] for i in range(len(evs)) if i not in acc]
@@ -711,9 +791,27 @@ def run(ctx):
         if stage("traces"):
             stage_traces(ctx, env, tbl, q)
         if stage("truth") or stage("selftest"):
-            truth, truth_ok = stage_truth(ctx, env, tbl)
+            truth, truth_ok = stage_truth(ctx, env, tbl, q)
             if stage("selftest") and _TPLS:
                 selftests(ctx, env, truth, truth_ok)
     finally:
         os.unlink(tpath)
         os.unlink(ppath)
+
+
+def replay(ctx, obj):
+    """./check X03 --replay FILE: run the recorded command line again on the current tree and show what it prints"""
+    d = obj.get("detail") or {}
+    print("key :", obj.get("key"))
+    print("what:", obj.get("what"))
+    argv = d.get("argv")
+    if argv:
+        ran = X.run_ku(argv)
+        print("$ ku " + " ".join(argv))
+        print(ran.out, end="")
+        if ran.err:
+            print("stderr:", ran.err.strip())
+        if ran.exc:
+            print("raises:", ran.exc)
+        if d.get("stdout") is not None and (ran.out[:3000] == d["stdout"] and ran.exc == d.get("exc")):
+            ctx.fail(obj["key"], obj.get("what", ""), d)      # behaves as recorded
